@@ -160,7 +160,7 @@ def q30(x):
     return round(x / GRID) * GRID
 
 
-def gen_natural(rng, small=False):
+def gen_natural(rng, small=False, integer_span=False):
     """A train of the property's quantifier: 30..300 events, irregular spacing in [0.5, 10] s,
     drift in [-100, 100] ppm, offset up to minutes of either sign, 0..5 events missing on each side
     at any position, jitter up to 0.1 ms, both modes.  Ground truth labels kept."""
@@ -187,12 +187,35 @@ def gen_natural(rng, small=False):
             return set(range(s, s + k))
         return set(rng.sample(range(n), k))
     da, db = pick(ka), pick(kb)
+    kind = "natural"
+    if integer_span:
+        # make max(tsa, tsb) - min(tsa, tsb) a whole number of seconds: move the last event (kept on both sides,
+        # like the first) by less than a second on both clocks consistently with the true map
+        kind = "integer_span"
+        da -= {0, n - 1}
+        db -= {0, n - 1}
+        d = drift * 1e-6
+        lo_t = min(ta[0], tb[0])
+        b_last = tb[-1] >= ta[-1]
+        cur = tb[-1] if b_last else ta[-1]
+        s_up = lo_t + math.ceil(cur - lo_t) - cur
+        gap = t[-1] - t[-2]
+        sh = s_up if gap + s_up <= 10.0 else s_up - 1.0
+        if b_last:
+            tb[-1] = cur + sh
+            ta[-1] = q30(ta[-1] + sh / (1 + d))
+        else:
+            ta[-1] = cur + sh
+            tb[-1] = q30(tb[-1] + sh * (1 + d))
+        span = max(ta[-1], tb[-1]) - lo_t
+        if not float(span).is_integer() or min(ta[-1] - ta[-2], tb[-1] - tb[-2]) < 0.45:
+            return gen_natural(rng, small=small, integer_span=True)     # rare: the later side flipped; draw again
     la = [i for i in range(n) if i not in da]
     lb = [i for i in range(n) if i not in db]
     linear = rng.random() < 0.5
     held = sorted(da | db)
     queries = [float(ta[i]) for i in held] + [float(ta[0]), float(ta[-1]), float(q30((ta[0] + ta[-1]) / 2))]
-    return {"kind": "natural", "linear": linear, "tbin": 0.1, "forced_rel": None,
+    return {"kind": kind, "linear": linear, "tbin": 0.1, "forced_rel": None,
             "tsa": [float(ta[i]) for i in la], "tsb": [float(tb[i]) for i in lb], "queries": queries,
             "truth": {"la": la, "lb": lb, "drift_ppm": drift, "offset": off, "jmax": jmax,
                       "jit_a": jit_a, "held": held, "n": n, "t_all": [float(v) for v in ta]}}
@@ -242,34 +265,9 @@ def gen_boundary(rng):
 
 
 def gen_integer_span(rng):
-    """An in-domain train whose total span tmax - tmin is a whole number of seconds."""
-    c = gen_natural(rng, small=True)
-    c["kind"] = "integer_span"
-    lo = min(c["tsa"][0], c["tsb"][0])
-    hi_is_a = c["tsa"][-1] >= c["tsb"][-1]
-    hi = max(c["tsa"][-1], c["tsb"][-1])
-    new_hi = lo + math.ceil(hi - lo) + (1.0 if math.ceil(hi - lo) - (hi - lo) > 0.4 else 0.0)
-    # moving the last event of the later side by < 1.5 s keeps spacing inside [0.5, 11.5] s; the true map of that
-    # event is kept consistent by moving it on both sides by the same amount (drift * 1.5 s < 0.2 ms)
-    shift = new_hi - hi
-    if c["truth"]["la"][-1] == c["truth"]["lb"][-1]:
-        c["tsa"][-1] = q30(c["tsa"][-1] + shift)
-        c["tsb"][-1] = q30(c["tsb"][-1] + shift)
-    elif hi_is_a:
-        c["tsa"][-1] = q30(c["tsa"][-1] + shift)
-    else:
-        c["tsb"][-1] = q30(c["tsb"][-1] + shift)
-    hi2 = max(c["tsa"][-1], c["tsb"][-1])
-    lo2 = min(c["tsa"][0], c["tsb"][0])
-    if hi_is_a != (c["tsa"][-1] >= c["tsb"][-1]) or not float(hi2 - lo2).is_integer():
-        # fall back: force it on whichever side is later
-        if c["tsa"][-1] >= c["tsb"][-1]:
-            c["tsa"][-1] = lo2 + math.ceil(c["tsa"][-1] - lo2)
-        else:
-            c["tsb"][-1] = lo2 + math.ceil(c["tsb"][-1] - lo2)
-    c["truth"]["t_all"] = None
-    c["queries"] = [c["tsa"][0], c["tsa"][-1]]
-    return c
+    """An ordinary train of the domain whose total span tmax - tmin is a whole number of seconds (the histogram
+    of the coarse-offset stage then has its last event exactly on a bin edge; IndexError before repo commit 36cb437)."""
+    return gen_natural(rng, small=rng.random() < 0.5, integer_span=True)
 
 
 def gen_parabolic(rng):
@@ -333,7 +331,7 @@ def oracle(case, res, meas):
     meas["trains_with_full_recall"] = meas.get("trains_with_full_recall", 0) + (nfound == ntrue)
     if recall < RECALL_MIN:
         bad.append(("only %d of %d true correspondences returned" % (nfound, ntrue), {"kind": "low_recall"}))
-    if wrong or tr.get("t_all") is None:
+    if wrong:
         return bad
     # drift: least squares on true pairs with residuals bounded by J obeys |slope error| <= J / SD(x)
     d, off, jm = tr["drift_ppm"] * 1e-6, tr["offset"], tr["jmax"]
@@ -429,7 +427,7 @@ def run(ctx):
     thorough = ctx.thorough()
     n_nat = 1500 if thorough else 140
     n_bnd = 12000 if thorough else 1500
-    n_int = 40 if thorough else 6
+    n_int = 150 if thorough else 25
     cases = [gen_natural(rng) for _ in range(n_nat)] + [gen_boundary(rng) for _ in range(n_bnd)] + \
             [gen_integer_span(rng) for _ in range(n_int)]
     meas = {}
@@ -462,7 +460,7 @@ def run(ctx):
                 continue          # already reported above
             ctx.disagree("coarse offset not observable (parabolic_max not called)", slim(case))
             continue
-        if case["kind"] == "natural" and res["status"] == "ok":
+        if case["kind"] in ("natural", "integer_span") and res["status"] == "ok":
             tr = case["truth"]
             dres = abs(res["delta"] + tr["offset"] + tr["drift_ppm"] * 1e-6 * 0.5 * (case["tsa"][0] + case["tsa"][-1]))
             meas["max_coarse_offset_error_s"] = max(meas.get("max_coarse_offset_error_s", 0.0), dres)
@@ -563,8 +561,8 @@ def run(ctx):
              "jitter <= 0.1 ms, both modes, times on a 2^-30 s grid) run through the real sync_timestamps, checked by the "
              "ground-truth oracle and compared with the Coq model fed the implementation's own coarse offset; (boundary) "
              "2..8-event trains on a 1/64 s grid with a forced coarse offset, spacings and perturbations at k-1,k,k+1 "
-             "grid steps around tbin and 2*tbin, spurious/missing/unsorted b events; (integer_span) domain trains whose "
-             "span is a whole number of seconds; plus (parabolic) integer-valued arrays through utils.parabolic_max and its "
+             "grid steps around tbin and 2*tbin, spurious/missing/unsorted b events; (integer_span) the same kind of domain trains "
+             "with a total span of a whole number of seconds, same oracle; plus (parabolic) integer-valued arrays through utils.parabolic_max and its "
              "model.  Non-trivial = at least two pairs returned (trains) / maximum strictly inside (arrays); distinct by full input",
         samples=samples, evaluations=len(cases) + len(par_in), distinct_nontrivial=len(nontrivial),
         extra={"input_distribution": dist, "exhaustive": False},
